@@ -44,7 +44,11 @@ def run_sched(chk, buf_units, grid, count, nshards=16):
                 if not line:
                     continue
                 try:
-                    out.append(json.loads(line))
+                    rec = json.loads(line)
+                    if rec.get("aborted_early"):
+                        chk.coverage["shards_stopped_early_after_30_abnormal_schedules"] = chk.coverage.get("shards_stopped_early_after_30_abnormal_schedules", 0) + 1
+                        continue
+                    out.append(rec)
                 except ValueError:
                     raise HarnessFailure("unparseable result line: %s" % line[:300])
     return out
